@@ -509,6 +509,42 @@ func judgeNumber(t rk.Failer, slot, spelling, sign string, ex numExpect, nontriv
 	}
 }
 
+// TestLongLiterals: literal bodies of 255 .. 70000 bytes built from repeated fragments (plain text, escapes of every
+// kind, multi-byte characters), in all five quoting forms; numerals of hundreds of digits.
+func TestLongLiterals(t *testing.T) {
+	frs := []string{"a", "ab ", "\\n", "\\x41", "\\u00e9", "\\U0001F600", "\\101", "\\\\", "é", "注", "\U0001F600", "\\t\\\"", "a\\'b", "\ufffd", "\\ufffd"}
+	n := 0
+	for fi, fr := range frs {
+		for li, ln := range []int{255, 256, 257, 4095, 4096, 4097, 65535, 65536, 65537, 70000} {
+			if (fi+li)%evid.NShards() != evid.Shard() {
+				continue
+			}
+			body := strings.Repeat(fr, ln/len(fr)+1)
+			checkBody(t, "long", body)
+			// a different fragment at the very end and at the very start
+			checkBody(t, "long", body+"\\x5a")
+			checkBody(t, "long", "\\x5a"+body)
+			n += 3
+		}
+	}
+	for _, digits := range []int{20, 21, 39, 100, 308, 309, 310, 400, 1000} {
+		dec := "1" + strings.Repeat("0", digits-1)
+		f, err := strconv.ParseFloat(dec, 64)
+		for _, sign := range []string{"", "-"} {
+			judgeNumber(t, "long", dec, sign, numExpect{f: f, weak: err != nil}, err == nil)
+			judgeNumber(t, "long", "0."+strings.Repeat("0", digits)+"1", sign, numExpect{f: mustFloat("0." + strings.Repeat("0", digits) + "1")}, true)
+			judgeNumber(t, "long", strings.Repeat("9", digits)+".5e-"+fmt.Sprint(digits), sign, numExpect{f: mustFloat(strings.Repeat("9", digits) + ".5e-" + fmt.Sprint(digits))}, true)
+			n += 3
+		}
+	}
+	evid.Exhaustive("fragment x body length 255..70000 x five quoting forms; numerals of 19..1000 digits", n)
+}
+
+func mustFloat(s string) float64 {
+	f, _ := strconv.ParseFloat(s, 64)
+	return f
+}
+
 func TestIntegerBoundaries(t *testing.T) {
 	n := 0
 	try := func(u uint64, over bool, dec string) {
